@@ -339,7 +339,7 @@ assert sock.wire == acc
 
 
 # ---------------------------------------------------------------------------------------------------
-def run_read_ns(payloads, script, maxsize):
+def run_read_ns(payloads, script, maxsize, call_maxsize=None):
     wire = flat(script)
     sock = ScriptedSocket(script)
     ns = NetstringSocket(sock, timeout=BIG) if maxsize is None else NetstringSocket(sock, timeout=BIG, maxsize=maxsize)
@@ -348,7 +348,7 @@ def run_read_ns(payloads, script, maxsize):
         while True:
             t0 = sock.timeouts
             try:
-                out = ('ret', ns.read_ns())
+                out = ('ret', ns.read_ns() if call_maxsize is None else ns.read_ns(maxsize=call_maxsize))
             except Timeout:
                 out = ('Timeout',)
             except Exception as e:  # noqa
@@ -391,6 +391,24 @@ def run_write_ns(payloads, sends, maxsize):
     if sock.wire != want:
         return ('netstring_wire_format', 'NetstringSocket.write_ns', 'wire %r != %r' % (sock.wire, want))
     return None
+
+
+def part_netstring_percall(H):
+    """read_ns(maxsize=N) with a per-call limit larger than the one given to the constructor: a payload within the per-call
+    limit is returned, however many digits its length prefix has"""
+    for inst_max, call_max, n in ((5, 200, 120), (9, 50, 12), (1, 12, 10), (99, 100000, 4321)):
+        payload = bytes(bytearray((65 + i % 26) for i in range(n)))
+        wire = netstring(payload)
+        for S in ([wire], [wire[:1], wire[1:]], [wire[:len(str(n))], T, wire[len(str(n)):]]):
+            H.ev(key=('ns-call', inst_max, call_max, n, len(S)), nontrivial=True, part='netstring',
+                 sample=dict(instance_maxsize=inst_max, call_maxsize=call_max, payload_len=n))
+            f = run_read_ns((payload,), S, inst_max, call_maxsize=call_max)
+            if f:
+                H.fail(f[0], f[1], 'per-call maxsize larger than the constructor maxsize (length prefix with more digits)',
+                       dict(instance_maxsize=inst_max, call_maxsize=call_max, payload_len=n), f[2],
+                       'from boltons.socketutils import NetstringSocket\nimport socket\na, b = socket.socketpair()\n'
+                       'p = b"x" * %d\nb.sendall(str(len(p)).encode() + b":" + p + b",")\nns = NetstringSocket(a, maxsize=%d)\n'
+                       'assert ns.read_ns(maxsize=%d) == p\n' % (n, inst_max, call_max))
 
 
 def part_netstring(H, max_t, frac):
@@ -506,6 +524,7 @@ def run():
         part_send(H, 4 if th else 3, 4 if th else 3)
     if part in (None, 'netstring'):
         part_netstring(H, 2 if th else 1, 0.97)
+        part_netstring_percall(H)
     if th and part in (None, 'random'):
         part_random(H, H.seed, 60000)
     H.finish()
